@@ -648,6 +648,9 @@ class err_gs(err_node):
         for child in self.children:
             if child.get_error_count() > 0:
                 return 'R'
+        for ele in self.elements:
+            if ele.get_error_count() > 0:
+                return 'R'
         #err_codes = map(lambda x:x[0], self.errors)
         #if '1' in err_codes: return 'R'
         #elif '2' in err_codes: return 'R'
